@@ -36,12 +36,12 @@ CHECKS = {
   note="Trusted: reference allocation count (sum of lengths of created collections); budgets 1..12 and the default.",
   ref="DESIGN.md section 4 C06"),
  "C08": dict(
-  technique="stateless preemption-bounded exploration (iterative context bounding, replayed prefixes) of all interleavings of 2-3 VM threads at instruction granularity through the vm.Debug() seam, with deep snapshots of the shared state; plus a declared auxiliary free-running pass under the race detector",
+  technique="stateless preemption-bounded exploration (iterative context bounding, replayed prefixes) of all interleavings of 2-3 VM threads at instruction granularity through the vm.Debug() seam, and of 2-3 concurrent Compile calls at visitor-callback and (through scheduling points injected by a build overlay generated from the current sources) method-entry granularity, with deep snapshots of the shared programs, environments, option slices and every package-level variable; plus a declared auxiliary free-running pass under the race detector",
   text="The explorer is the only thing that lets a VM advance: every schedule with at most 2 preemptions (2 threads) / 1 preemption (3 threads; +1 in the thorough tier) of threads running FRESH shared program instances (compiled regexp, lookup map, folded slice, call descriptors, nested scopes, ranges, dynamic patterns, a failing run on a multi-line source) on two shared read-only environments is executed; every run must return its solo result and the canonical deep snapshot of the shared programs and environments must be unchanged after every schedule. Replay determinism is checked first; a divergence while replaying a prefix is a hard error. Accesses between two scheduling points and concurrent Compile calls are covered by the same bodies run free under -race (auxiliary, not model checking).",
   note="Trusted: instruction boundaries as scheduling points; the race detector for the auxiliary pass; if the library starts importing package sync, snapshot changes are reported only together with a race report.",
   ref="DESIGN.md section 4 C08"),
  "C09": dict(
-  technique="exhaustive enumeration of expressions x option configurations with repeated compilation, deep before/after snapshots and a second process; exhaustive exploration of every permutation of every map iterated during Compile through a seam generated from the current sources (explicit enumeration of environment answers)",
+  technique="exhaustive enumeration of expressions x option configurations with repeated compilation, deep before/after snapshots and a second process; explicit enumeration of short histories (pairs, triples) of compile operations; exhaustive exploration of every permutation of every map iterated during Compile and Run through a seam generated from the current sources (explicit enumeration of environment answers)",
   text="Every expression of six corpora x 8 option configurations is compiled three times with unrelated compiles in between (identical bytecode, constants in order, locations; probes compiled first-in-process and again at the end expose dependence on earlier compiles); the corpus is re-hashed in a second process; a generated build overlay routes every map iteration of the library through a seam, and for 288 configurations (operator tables with overlapping candidates, several ConstExpr functions, small map environments, structs with two embedded structs) every permutation (<= 4 entries; three fixed ones above) of every iteration visit is explored within deviation bound 1 (2 in the thorough tier): the program must not change; program, run environment and Env() sample are deeply snapshotted before/after every run; a second run on an equal environment and a reused vm.VM must give equal results.",
   note="Trusted: canonical deep snapshots (mc/snap); the seam generator (go/types based, regenerated from the tree under test at every run; sites it cannot rewrite are listed); cross-process axis is two samples.",
   ref="DESIGN.md section 4 C09, section 3.6"),
